@@ -142,7 +142,9 @@ Definition kind_code (k : prop_kind) : Z :=
   match k with Std => 0 | Abs => 1 | Bnd => 2 end%Z.
 
 (* what the harness observes of a real Parameter after a call sequence:
-   (bounded, _non_negative, lower, upper, width, code of proposal.__name__),
+   (bounded, _non_negative, lower, upper, width, code of proposal.__name__ --
+   or -1 when the method has a name the harness does not know, so that a mere
+   renaming is not a disagreement; the proposal value is compared in any case),
    then one proposal: raw draw x (exact) and the value proposal() returned *)
 Definition obs := (bool * bool * Q * Q * Q * Z * Q * Q)%type.
 
@@ -150,7 +152,7 @@ Definition check_state (prop : pstate -> Q -> Q) (st : pstate) (o : obs) : bool 
   let '(b, nn, lo, hi, w, k, x, y) := o in
   Bool.eqb (bounded st) b && Bool.eqb (nonneg st) nn &&
   Qeqb (lower st) lo && Qeqb (upper st) hi && Qeqb (width st) w &&
-  (kind_code (active st) =? k)%Z &&
+  ((k =? -1)%Z || (kind_code (active st) =? k)%Z) &&
   Qeqb (prop st x) y.
 
 (* all call sequences of length <= n over an alphabet, depth first, the state
@@ -168,6 +170,32 @@ Fixpoint failing2 {A B} (f : A -> B -> bool) (l : list A) (m : list B) (i : nat)
   | x :: t, y :: u => if f x y then failing2 f t u (S i) else i :: failing2 f t u (S i)
   | [], [] => []
   | _, _ => [i]      (* length mismatch: reported as a failure at the first missing index *)
+  end.
+
+(* compact form of the same comparison for the exhaustive enumeration (tens of
+   thousands of nodes): the distinct observed attribute tuples are listed once
+   in `table`; per node the harness gives the index into the table and 64*y (the
+   proposals are dyadic with denominator <= 64 on the inputs used); the raw draw
+   of node i is xof i (an input chosen by the harness, not an observation) *)
+Definition obs_state := (bool * bool * Q * Q * Q * Z)%type.
+
+Definition check_state_code (prop : pstate -> Q -> Q) (table : list obs_state)
+           (st : pstate) (x : Q) (idx y64 : Z) : bool :=
+  match nth_error table (Z.to_nat idx) with
+  | Some (b, nn, lo, hi, w, k) =>
+      (0 <=? idx)%Z && check_state prop st (b, nn, lo, hi, w, k, x, Qmake y64 64)
+  | None => false
+  end.
+
+Fixpoint failing_codes (prop : pstate -> Q -> Q) (table : list obs_state) (xof : nat -> Q)
+         (l : list pstate) (codes : list Z) (i : nat) : list nat :=
+  match l, codes with
+  | st :: t, idx :: y64 :: u =>
+      if check_state_code prop table st (xof i) idx y64
+      then failing_codes prop table xof t u (S i)
+      else i :: failing_codes prop table xof t u (S i)
+  | [], [] => []
+  | _, _ => [i]
   end.
 
 (* explicit call sequences (GibbsChain runs): (ops, observation) *)
